@@ -11,7 +11,7 @@ theorem apply_classify {s s' : St} {o : Op} {id : Nat} {r r' : Rollapp} (h : Rol
     (∃ m q, o = .update m ∧ m.ra = id ∧ m.last = true ∧ r.proposer = some m.sender ∧
         getSeq s m.sender = some q ∧ noticeElapsed q s.t = true ∧ r'.proposer = r.successor) ∨
     (∃ a k pa pq, o = .kick a ∧ getSeq s a = some k ∧ k.bonded = true ∧ k.optedIn = true ∧ k.rollapp = id ∧
-        r.proposer = some pa ∧ a ≠ pa ∧ getSeq s pa = some pq ∧ s.p.kickThr ≤ pq.dishonor ∧
+        r.proposer = some pa ∧ a ≠ pa ∧ getSeq s pa = some pq ∧ s.sqp.kickThr ≤ pq.dishonor ∧
         r'.proposer = choose s' id ∧ r'.proposer.isSome = true) ∨
     (r'.proposer = none ∧
         ((∃ au hh rev pun rw, o = .fraud au id hh rev pun rw) ∨ (∃ au vs, o = .obsolete au vs))) ∨
@@ -111,6 +111,13 @@ theorem apply_classify {s s' : St} {o : Op} {id : Nat} {r r' : Rollapp} (h : Rol
     · rw [hps'] at h1; injection h1 with h1
       right; right; left
       exact ⟨h1, Or.inr ⟨au, vs, rfl⟩⟩
+  | punish au a' rw => exact contra ((punish_frame h.core.uniq (punishProposal_ok e).2).psame id)
+  | transferOwner sg ra' no =>
+    obtain ⟨r1, hg1, _, _, _, rfl⟩ := transferOwner_ok e
+    exact contra (psame_setRa (r0 := r1) hg1 (by rfl) (by rfl) id)
+  | setSeqParams au sp =>
+    obtain ⟨_, hnp, _, rfl⟩ := setSeqParams_ok e
+    exact contra rfl
   | begin_ dt => simp only [apply] at e; injection e with e; subst e; exact contra (beginBlock_psame s dt id)
   | end_ f => simp only [apply] at e; injection e with e; subst e; exact contra ((endBlock_frame h.core.uniq).psame id)
 
